@@ -7,6 +7,8 @@ import GivaroModel.Model.ModRingRecInt
 import GivaroModel.Model.ModRingExt
 import GivaroModel.Model.ModRingLog16
 import GivaroModel.Model.ModRingInit
+import GivaroModel.Model.ModRingPrecomp
+import GivaroModel.Model.ModRingGeneric
 import GivaroModel.Spec.ModRingSpec
 -- @driver-mode modring Driver.ModRing.modringLine
 -- @driver-mode modinit Driver.ModRing.modinitLine
@@ -16,7 +18,7 @@ open Givaro.Model.ModRing Givaro.Spec.ModRing
 
 inductive Fam where
   | int (k : ICfg) | flt (k : FCfg) | balF (k : BFCfg) | balI (k : BICfg) | ext (k : ECfg)
-  | zz | ru (k : RCfg) | log16 | mont | gfq
+  | zz | ru (k : RCfg) | log16 | mont | gfq | gen (k : GCfg)
 
 def famOf : String → Option Fam
   | "s8" => some (.int ⟨8, true, 8⟩) | "s16" => some (.int ⟨16, true, 16⟩)
@@ -36,6 +38,8 @@ def famOf : String → Option Fam
   | "ri7" => some (.ru ⟨128, true, false⟩)
   | "log16" => some .log16
   | "mg32" => some .mont | "gfq32" => some .gfq
+  | "g8" => some (.gen ⟨8, true⟩) | "g16" => some (.gen ⟨16, true⟩) | "g32" => some (.gen ⟨32, true⟩) | "g64" => some (.gen ⟨64, true⟩)
+  | "gu8" => some (.gen ⟨8, false⟩) | "gu16" => some (.gen ⟨16, false⟩)
   | _ => none
 
 def Fam.balanced : Fam → Bool
@@ -54,6 +58,7 @@ def Fam.limits : Fam → Int × Option Int
   | .log16 => (2, some 16381)
   | .mont => (2, some 40503)
   | .gfq => (2, some 65536)
+  | .gen k => (2, some k.maxCard)
 
 inductive MRes where
   | noModel | inexact | val (x : Int)
@@ -153,6 +158,24 @@ def modelEval (f : Fam) (op : String) (p : Int) (a : Array Int) : MRes :=
     | "maxpyin" => ofOpt (k.maxpy p (g 1) (g 2) (g 0))
     | "isUnit" => ofOpt ((k.isUnit p (g 0)).map b2i)
     | _ => .noModel
+  | .gen k =>
+    match op with
+    | "add" | "addin" => .val (k.add p (g 0) (g 1))
+    | "sub" => .val (k.sub p (g 0) (g 1))
+    | "subin" => .val (k.subin p (g 0) (g 1))
+    | "mul" | "mulin" => .val (k.mul p (g 0) (g 1))
+    | "neg" | "negin" => .val (k.neg p (g 0))
+    | "inv" | "invin" => .val (k.inv p (g 0))
+    | "div" | "divin" => .val (k.div p (g 0) (g 1))
+    | "axpy" => .val (k.axpy p (g 0) (g 1) (g 2))
+    | "axmy" => .val (k.axmy p (g 0) (g 1) (g 2))
+    | "maxpy" => .val (k.maxpy p (g 0) (g 1) (g 2))
+    | "axpyin" => .val (k.axpyin p (g 0) (g 1) (g 2))
+    | "axmyin" => .val (k.axmyin p (g 0) (g 1) (g 2))
+    | "maxpyin" => .val (k.maxpyin p (g 0) (g 1) (g 2))
+    | "isUnit" => .val (b2i (k.isUnit p (g 0)))
+    | "reduce1" | "reduce2" => .val (k.reduce p (g 0))
+    | _ => .noModel
   | .zz =>
     match op with
     | "add" | "addin" => .val (ZMod'.add p (g 0) (g 1))
@@ -212,6 +235,7 @@ def Fam.ops? (f : Fam) (p : Int) : Option RingOps :=
   | .zz => some (zOps p)
   | .ru k => some (k.ops p)
   | .ext k => some (k.ops p)
+  | .gen k => some (k.ops p)
   | _ => none
 
 /-- verdict for a history line: registers after the program, model run and residue run -/
@@ -288,6 +312,36 @@ def rawVerdict (op : String) (m : Int) (a : Array Int) (res : List String) (line
       s!"DIFF kind={kind} model={hexInt mr} repOk={repOk} | {line.trimAscii.toString}"
   | _ => "BAD result | " ++ line
 
+/-- verdict for the precomputed-reciprocal multiplications (modular-mulprecomp.inl):
+    `mulpp m a b = bitsizep invp r` ; `mulpb m a b = invb without_reduction r` -/
+def precompVerdict (k : ICfg) (op : String) (m : Int) (a : Array Int) (res : List String) (line : String) : String :=
+  let x := a.getD 0 0
+  let y := a.getD 1 0
+  let n := k.bitsize m
+  -- the documented domain: assert(bitsizep <= 4*s-2) for the `_p` variant, assert(bitsizep <= 4*s-1) for the `_b` variant
+  if op == "mulpp" && n + 2 > k.hbits then "PRE" else
+  if op == "mulpb" && n + 1 > k.hbits then "PRE" else
+  match parseAll res with
+  | some [r0, r1, r2] =>
+    let want := canonU m (x * y)
+    if op == "mulpp" then
+      let invp := k.precompP m n
+      let mr := k.mulPrecompP m n invp x y
+      let specOk := r2 == want
+      let modelOk := r0 == (n : Int) && r1 == invp && r2 == mr
+      if specOk && modelOk then "OK" else
+      s!"DIFF kind={if !specOk && !modelOk then "BOTH" else if !specOk then "SPEC" else "MODEL"} model={n},{hexInt invp},{hexInt mr} | {line.trimAscii.toString}"
+    else
+      let invb := k.precompB m y
+      let nr := k.mulPrecompBNoRed m invb x y
+      let mr := k.mulPrecompB m invb x y
+      -- the unreduced value is congruent and below 2p; the reduced one is canonical
+      let specOk := r2 == want && 0 ≤ r1 && r1 < 2 * m && (r1 - x * y) % m == 0
+      let modelOk := r0 == invb && r1 == nr && r2 == mr
+      if specOk && modelOk then "OK" else
+      s!"DIFF kind={if !specOk && !modelOk then "BOTH" else if !specOk then "SPEC" else "MODEL"} model={hexInt invb},{hexInt nr},{hexInt mr} | {line.trimAscii.toString}"
+  | _ => "BAD result | " ++ line
+
 /-- verdict for one C03 line -/
 def c03Verdict (f : Fam) (op : String) (m : Int) (a : Array Int) (res : List String) (line : String) : String :=
   let bal := f.balanced
@@ -303,6 +357,7 @@ def c03Verdict (f : Fam) (op : String) (m : Int) (a : Array Int) (res : List Str
   if m < 2 then "PRE" else
   if (match f with | .log16 => !isPrimeNat m.toNat | _ => false) then "PRE" else
   if op.startsWith "raw_" then rawVerdict op m a res line else
+  if (op == "mulpp" || op == "mulpb") then (match f with | .int k => (if !(a.all (fun x => decide (isCanon bal m x))) then "PRE" else precompVerdict k op m a res line) | _ => "BAD op | " ++ line) else
   if op == "hist" then histVerdict f m a res line else
   let isRed := op == "reduce1" || op == "reduce2"
   if !isRed && !(a.all (fun x => decide (isCanon bal m x))) then "PRE" else
@@ -420,6 +475,11 @@ def initModel (f : Fam) (src : String) (p x : Int) : MRes :=
     else if k.w = 32 && src == "s64" then .val (k.initS p x)
     else if srcIsInt src then .val (k.initSmall p x)
     else .noModel
+  | .gen k =>
+    -- sources the element type holds (narrower, or same width and signedness) are cast and reduced; every other machine
+    -- number and `Integer` are reduced over Z
+    let fits := srcIsInt src && ((srcSigned src == k.sg && srcBits src ≤ k.s) || (!srcSigned src && srcBits src < k.s))
+    if fits then .val (k.initFit p x) else if src == "f64h" then .val (k.initZ p (Int.tdiv x 2)) else .val (k.initZ p x)
   | .zz => if src == "f64h" then .noModel else .val (ZMod'.init p x)
   | .ru k => if src == "Z" then .val (k.initZ p x) else if srcIsInt src then .val (k.initInt p x) else .noModel
   | .log16 =>
@@ -472,8 +532,8 @@ def c04Verdict (f : Fam) (op : String) (m : Int) (a : Array Int) (res : List Str
     let x := a.getD 0 0
     -- a non-integer double: only the integral rings define the result through an integer conversion (truncation);
     -- for the other rings a non-integer source is outside the property (the element would not be an integer)
-    if src == "f64h" && x % 2 != 0 && (match f with | .int _ => false | _ => true) then "PRE" else
-    let x := if src == "f64h" then (match f with | .int _ => x | _ => x / 2) else x
+    if src == "f64h" && x % 2 != 0 && (match f with | .int _ | .gen _ => false | _ => true) then "PRE" else
+    let x := if src == "f64h" then (match f with | .int _ | .gen _ => x | _ => x / 2) else x
     -- Montgomery<int32_t>: sources without an overload of their own go through the template whose header comment
     -- states "T is supposed to be fit into an Element" (uint32_t): a float beyond 2^32 is outside that contract
     if (match f with | .mont => src == "f32" && (x ≥ 4294967296 || x ≤ -4294967296) | _ => false) then "PRE" else
@@ -482,7 +542,7 @@ def c04Verdict (f : Fam) (op : String) (m : Int) (a : Array Int) (res : List Str
     | [r] =>
       match parseHexInt r with
       | some impl =>
-        let specOk := impl == canon bal m (if src == "f64h" then (match f with | .int _ => Int.tdiv x 2 | _ => x) else x)
+        let specOk := impl == canon bal m (if src == "f64h" then (match f with | .int _ | .gen _ => Int.tdiv x 2 | _ => x) else x)
         let modelOk := match mres with | .noModel => true | r => r == .val impl
         if specOk && modelOk then "OK"
         else bad (if !specOk && !modelOk then "BOTH" else if !specOk then "SPEC" else "MODEL") (showM mres)
